@@ -115,6 +115,63 @@ def shard_keys(exp):
     return sorted(out.values())
 
 
+def killed_while_saving(ctx, proto, drv, el):
+    """crash points of the save as the process sees them: a collector that is killed (SIGKILL) at seeded moments while it
+    dumps a large cache to the file, several times over; whatever that leaves behind (a partial file, temporary files), the
+    next clean cycle - learn a template, save, start again - must decode that template's data"""
+    import signal
+    import subprocess
+    import time
+    name = codec.P[proto]["name"]
+    d = ctx.subdir("c11kill_" + proto)
+    path = os.path.join(d, "templates.cache")
+    env = ctx._goenv()
+    env.update({"VERIF_CACHE_FILE": path, "VERIF_NTPL": "3000"})
+    kills = 0
+    for k in range(4):
+        p = subprocess.Popen([drv, "-test.run", "^TestVerifDumpLoop$", "-test.count=1", "-test.timeout", "60s"], cwd=d, env=env,
+                             stdout=subprocess.PIPE, stderr=subprocess.STDOUT, text=True)
+        t0 = time.time()
+        ready = False
+        while time.time() - t0 < 20:
+            line = p.stdout.readline()
+            if "VERIF-DUMPLOOP-READY" in line:
+                ready = True
+                break
+            if not line and p.poll() is not None:
+                break
+        if not ready:
+            p.kill()
+            raise vlib.Infra("dump-loop driver did not start")
+        time.sleep(ctx.rng.choice([0.003, 0.011, 0.027, 0.05, 0.09]) + ctx.rng.random() * 0.01)
+        p.send_signal(signal.SIGKILL)
+        p.wait()
+        p.stdout.close()
+        kills += 1
+    left = sorted(os.listdir(d))
+    tid, v = 4321, 2
+    exp = [10, 1, 1, 1]
+    w1 = flowjobs.run_jobs(ctx, drv, codec.P[proto]["jobs"], [{"cache_file": path, "msgs": [{"exp": exp, "buf": c04.tpl_msg(proto, tid, v)}], "dump_to": path}],
+                           env={"VERIF_ELEMENTS_DIR": el}, tag="c11k1_" + proto)[0]
+    r1 = flowjobs.run_jobs(ctx, drv, codec.P[proto]["jobs"], [{"cache_file": path, "msgs": [{"exp": exp, "buf": c04.data_msg(proto, tid)}]}],
+                           env={"VERIF_ELEMENTS_DIR": el}, tag="c11k2_" + proto)[0]
+    ctx.count([proto, "killed-while-saving", ctx.seed])
+    case = {"proto": proto, "kills": kills, "files_left_behind": left}
+    if "killed" in w1 or "killed" in r1:
+        ctx.violation("%s: after a collector was killed while saving its templates, the next clean cycle died (%s)" % (name, w1.get("killed") or r1.get("killed")), case, key=proto + ":kill-save:died")
+        return
+    x = r1["res"][0]
+    got = [[(f["i"], tuple(f["v"]["o"])) for f in rec] for rec in x["recs"]]
+    if w1["res"][0]["st"] == "panic" or x["st"] == "panic":
+        ctx.violation("%s: after a collector was killed while saving its templates, the next incarnation panicked: %s" % (name, w1["res"][0].get("panic") or x.get("panic")), case, key=proto + ":kill-save:panic")
+    elif x["st"] != "ok" or got != c04.expected_recs(v):
+        ctx.violation("%s: a collector was killed %d times while saving its templates (left behind: %s); in the next clean cycle a template was "
+                      "learnt and saved (Dump said: %s), but after the restart its data is decoded '%s' with %d records"
+                      % (name, kills, left, w1.get("dump"), x["st"], len(got)), case, key=proto + ":kill-save:lost")
+    else:
+        ctx.traces_validated += 1
+
+
 def check(ctx):
     thorough = ctx.tier == "thorough"
     ctx.rule = ("model: TLC explores Dump as marshal / truncate / partial writes / completion with a crash-and-restart and a structural "
@@ -264,4 +321,5 @@ def check(ctx):
                                   "after the restart" % (name, label, p["exp"], x["st"], len(gotr)), {"existing_file": label},
                                   key=proto + ":overwrite")
                     break
+        killed_while_saving(ctx, proto, drv, el)
         ctx.sample({"proto": proto, "file_octets": len(raw), "loads": len(loads), "example_mutation": json.dumps(mutate_doc(doc, "nullshard", ctx.rng))[:300]})
